@@ -116,7 +116,7 @@ class Gen:
                     r["buildVarsWeak"] = [rng.choice(visible)]
                 r["buildScript"] = script_for("%sb" % nm, "build", bvars)
                 r["packageVars"] = [v for v in visible if rng.random() < 0.3]
-                r["packageScript"] = script_for("%sp" % nm, "package", r["packageVars"]) + 'cp -a "$1"/result-*.txt . 2>/dev/null || true\n'
+                r["packageScript"] = script_for("%sp" % nm, "package", r["packageVars"]) + 'cp -a "$1"/. . 2>/dev/null || true\n'
             elif rng.random() < 0.5:
                 r["packageScript"] = script_for("%sp" % nm, "package", [])
             # sources
